@@ -418,7 +418,7 @@ func (w *replWorld) startPrimary() string {
 	n.mgr = m
 	w.prim = n
 	// the listener is created in a goroutine: wait until it accepts
-	deadline := time.Now().Add(5 * time.Second)
+	deadline := time.Now().Add(patience(5 * time.Second))
 	for time.Now().Before(deadline) {
 		c, err := net.DialTimeout("tcp", n.addr, 200*time.Millisecond)
 		if err == nil {
@@ -481,7 +481,7 @@ func (w *replWorld) stopReplica(name string) string {
 	go func() { n.mgr.Stop(); close(done) }()
 	select {
 	case <-done:
-	case <-time.After(5 * time.Second):
+	case <-time.After(patience(5 * time.Second)):
 		res = "hung stop"
 	}
 	n.mgr = nil
@@ -489,7 +489,7 @@ func (w *replWorld) stopReplica(name string) string {
 	go func() { n.eng.Close(); close(cl) }()
 	select {
 	case <-cl:
-	case <-time.After(5 * time.Second):
+	case <-time.After(patience(5 * time.Second)):
 		if res == "ok" {
 			res = "hung close"
 		}
@@ -716,7 +716,7 @@ func (w *replWorld) idle(name string, ms int) string {
 	if n == nil || n.mgr == nil {
 		return "err not-running"
 	}
-	deadline := time.Now().Add(time.Duration(ms) * time.Millisecond)
+	deadline := time.Now().Add(patience(time.Duration(ms) * time.Millisecond))
 	for time.Now().Before(deadline) {
 		if s := w.sessionOf(n.addr); s != nil {
 			if ss, _ := s["start_sequence"].(uint64); ss == w.primSeq()+1 {
@@ -909,7 +909,7 @@ func (w *replWorld) step(ws []string) (out string) {
 		}
 		select {
 		case <-ch:
-		case <-time.After(8 * time.Second):
+		case <-time.After(patience(8 * time.Second)):
 			return "ok never-applied" // the entry never reached the replica within 8 s: nothing to stop into
 		}
 		s := w.stopReplica(ws[1])
@@ -1103,7 +1103,7 @@ func (w *replWorld) startFault(kind, id, arg string) string {
 	}
 	w.faults[id] = f
 	// the session must be visible before the workload starts
-	deadline := time.Now().Add(3 * time.Second)
+	deadline := time.Now().Add(patience(3 * time.Second))
 	for time.Now().Before(deadline) {
 		if w.inTopology(f.addr) == 1 {
 			return "ok"
